@@ -107,12 +107,12 @@ inline const std::map<Unit::SolidAngle, std::string_view> Abbreviations<Unit::So
 template <>
 inline const std::unordered_map<std::string_view, Unit::SolidAngle> Spellings<Unit::SolidAngle>{
     {"sr",           Unit::SolidAngle::Steradian      },
-    {"rad^2",        Unit::SolidAngle::SquareDegree   },
-    {"rad2",         Unit::SolidAngle::SquareDegree   },
-    {"radian^2",     Unit::SolidAngle::SquareDegree   },
-    {"radian2",      Unit::SolidAngle::SquareDegree   },
-    {"radians^2",    Unit::SolidAngle::SquareDegree   },
-    {"radians2",     Unit::SolidAngle::SquareDegree   },
+    {"rad^2",        Unit::SolidAngle::Steradian      },
+    {"rad2",         Unit::SolidAngle::Steradian      },
+    {"radian^2",     Unit::SolidAngle::Steradian      },
+    {"radian2",      Unit::SolidAngle::Steradian      },
+    {"radians^2",    Unit::SolidAngle::Steradian      },
+    {"radians2",     Unit::SolidAngle::Steradian      },
     {"deg^2",        Unit::SolidAngle::SquareDegree   },
     {"deg2",         Unit::SolidAngle::SquareDegree   },
     {"degree^2",     Unit::SolidAngle::SquareDegree   },
@@ -133,7 +133,7 @@ inline const std::unordered_map<std::string_view, Unit::SolidAngle> Spellings<Un
     {"arcminutes2",  Unit::SolidAngle::SquareArcminute},
     {"\"^2",         Unit::SolidAngle::SquareArcsecond},
     {"\"2",          Unit::SolidAngle::SquareArcsecond},
-    {"as",           Unit::SolidAngle::SquareArcsecond},
+    {"as2",          Unit::SolidAngle::SquareArcsecond},
     {"as^2",         Unit::SolidAngle::SquareArcsecond},
     {"arcs^2",       Unit::SolidAngle::SquareArcsecond},
     {"arcs2",        Unit::SolidAngle::SquareArcsecond},
